@@ -51,3 +51,76 @@ Example C04_nonvacuous :
   [([a; b; c], true); ([b; c], true); ([b; c], true); ([a; b], true); ([a; b], false);
    ([b; c], true); ([a; b; c], true); ([a; b; c], false); ([b; c], true); ([a; b], true)].
 Proof. split; [repeat constructor | vm_compute; reflexivity]. Qed.
+
+(* ------------------------------------------------------------------------------------------ *)
+(* C04 AT THE EX INTERFACE (appended by the ex group; proofs in ExSim.v / ExUndo.v).
+   The ex model of ExDefs.v (ex_exec over `|`-joined command lists, global with its command list run per line,
+   substitute over a range, a/i/c with text blocks, d pu r ! @ w u ...) is tied to the line buffer of UndoDefs.v by
+   the relation ExUndo.Rl: texts equal line by line (newline added), the logs agree on position, counts, deleted text
+   and command number entry by entry, the undo cursor and the command counter are equal; marks, ln_glob bits and
+   identities are forgotten, UndoDefs' redo text and allocation size have no counterpart (so Rl is a relation).
+   Every primitive of ExDefs (lbuf_edit, lbuf_undo, lbuf_modified, the saved-state update of w) preserves Rl against
+   the corresponding UndoDefs operation (ExUndo.Rl_edit, Rl_undo, Rl_bump, Rl_saved0). *)
+From NV Require ExDefs ExSpec ExSim ExUndo.
+
+(* ANY top-level command line -- ex_command = ex_exec + the closing lbuf_modified --, from any state whose line
+   buffer is related to an UndoDefs buffer u: the line buffer afterwards is related to u after a list of UndoDefs
+   operations followed by ONE Bump.  If the line is quiet (ExSim.quiet_line: every command of the line, also inside
+   the command lists of g/v, recursively, is one of a i c d k p pu r rs s y = ec q!, the nameless command or an unknown
+   word, and there is no @) the operations are edit calls only: the line is exactly one `CEdits l` of C04_disciplined.
+   Conventions, as in the code: `w` bumps (lbuf_saved), so `s/a/b/|w|s/c/d/` is two steps; `@` re-enters ex_command and
+   bumps; `!` without writeany asks lbuf_modified first (a bump); `u` inside a `|` line is an Undo operation in the
+   middle of a step.  Those lines are covered by the first conjunct only. *)
+Theorem C04_ex_command_ops : forall rvalid rfind filter readfile curpath fuel ln s u, ExUndo.Rl (ExDefs.lb s) u ->
+  exists ops,
+    ExUndo.Rl (ExDefs.lb (fst (ExDefs.ex_command rvalid rfind filter readfile curpath fuel ln s))) (run_ops u (ops ++ [Bump])) /\
+    (ExSim.quiet_line fuel ln = true -> exists l, ops = map mk_edit l).
+Proof. exact ExUndo.ex_command_ops. Qed.
+Print Assumptions C04_ex_command_ops.
+
+(* after ANY script (any lines, also with w @ ! u) run from the initial state of `vi -s -e file`, a quiet command line
+   that changes the text, followed by the command line `u`: the text is exactly what it was before that line, and `u`
+   reports success -- however many lines or sub-edits the line made (g with a command list, s on a range,
+   multi-line a/i/c, several commands joined by `|`) *)
+Theorem C04_ex_command_is_one_step : forall rvalid rfind filter readfile curpath fuel data input wa pre ln, 2 <= fuel ->
+  let s := ExUndo.after_lines rvalid rfind filter readfile curpath fuel pre (ExDefs.init_st data input wa) in
+  let s1 := fst (ExDefs.ex_command rvalid rfind filter readfile curpath fuel ln s) in
+  ExSim.quiet_line fuel ln = true -> ExSpec.texts s1 <> ExSpec.texts s ->
+  ExSpec.texts (fst (ExDefs.ex_command rvalid rfind filter readfile curpath fuel ExUndo.line_u s1)) = ExSpec.texts s /\
+  snd (ExDefs.ex_command rvalid rfind filter readfile curpath fuel ExUndo.line_u s1) = 0%Z.
+Proof. exact ExUndo.ex_u_restores. Qed.
+Print Assumptions C04_ex_command_is_one_step.
+
+(* scripts made of quiet lines and `u` lines, of any length: the texts after every line are those of the
+   one-entry-per-command stack (cspec_trace): every `u` pops exactly one modifying command LINE, `u` at the bottom fails
+   and changes nothing, a quiet line that changes nothing pushes nothing *)
+Theorem C04_ex_lines_disciplined : forall rvalid rfind filter readfile curpath fuel data input wa lines, 2 <= fuel ->
+  Forall (ExUndo.line_ok fuel) lines ->
+  exists cs, Forall2 ExUndo.line_cmd lines cs /\
+    map (map ExUndo.addnl) (ExUndo.run_lines rvalid rfind filter readfile curpath fuel lines (ExDefs.init_st data input wa)) =
+    map fst (cspec_trace (cstack_init (lines_of data)) cs).
+Proof. exact ExUndo.ex_lines_disciplined. Qed.
+Print Assumptions C04_ex_lines_disciplined.
+
+(* ANY script keeps the ex line buffer related to a reachable UndoDefs buffer whose history ends every command line
+   with Bump (so C04_refines applies to it: the next `u` restores the text before the most recent command NUMBER) *)
+Theorem C04_ex_script_reachable : forall rvalid rfind filter readfile curpath fuel data input wa lines,
+  exists ops,
+    ExUndo.Rl (ExDefs.lb (ExUndo.after_lines rvalid rfind filter readfile curpath fuel lines (ExDefs.init_st data input wa)))
+              (run_ops (lbuf_loaded (lines_of data) 3) ops) /\ ExUndo.at_boundary ops.
+Proof. exact ExUndo.ex_script_reachable. Qed.
+Print Assumptions C04_ex_script_reachable.
+
+(* not vacuous: `g/./s/$/x/|s/$/y/` on the file a b is quiet, makes four substitutions, and one `u` takes all of them back;
+   `1d|w`, `u` and `@a` are not quiet *)
+Example C04_ex_nonvacuous :
+  let rf := fun (pat ln : list N) (_ : bool) =>
+              match pat with [36%N] => Some (length ln, length ln) | _ => match ln with [] => None | _ => Some (0, 1) end end in
+  let ex := ExDefs.ex_command (fun _ => true) rf (fun _ _ => None) (fun _ => None) [] in
+  let gl := [103;47;46;47;115;47;36;47;120;47;124;115;47;36;47;121;47]%N in
+  let s0 := ExDefs.init_st [97;10;98;10]%N [] true in
+  ExSim.quiet_line 10 gl = true /\
+  ExSpec.texts (fst (ex 10 gl s0)) = [[97; 120; 121]; [98; 120; 121]]%N /\
+  ExSpec.texts (fst (ex 10 ExUndo.line_u (fst (ex 10 gl s0)))) = [[97]; [98]]%N /\
+  ExSim.quiet_line 10 [49;100;124;119]%N = false /\ ExSim.quiet_line 10 [117]%N = false /\ ExSim.quiet_line 10 [64;97]%N = false.
+Proof. vm_compute. repeat split. Qed.
